@@ -978,7 +978,8 @@ def _build_constant(
                     flags=ast.PyCF_ONLY_AST,
                     optimize=1,
                 )
-            except SyntaxError:
+            except (SyntaxError, ValueError):
+                # ValueError: strings that cannot be encoded (lone surrogates) are not code either.
                 logger.debug(
                     "Tried and failed to parse %r as Python code, "
                     "falling back to using it as a string literal "
